@@ -670,6 +670,10 @@ class Builtins:
             n = I.as_int(args[1], node)
             I.require(z3.And(0 <= n, n < 65536), 'struct.pack-range', node, exc='struct.error')
             return VSeq(S.lit([n / 256, n % 256]), 'bytes')
+        if fmt in ('>Q', '!Q'):
+            n = I.as_int(args[1], node)
+            I.require(z3.And(0 <= n, n < 2 ** 64), 'struct.pack-range', node, exc='struct.error')
+            return VSeq(S.lit([z3.simplify((n / (2 ** (8 * k))) % 256) for k in range(7, -1, -1)]), 'bytes')
         if fmt in ('B', '<B', '>B', '!B'):
             n = I.as_int(args[1], node)
             I.require(z3.And(0 <= n, n < 256), 'struct.pack-range', node, exc='struct.error')
